@@ -1,0 +1,131 @@
+//go:build verif
+
+package room
+
+import "time"
+
+// Verification hook (add-only, compiled only with -tags verif).
+//
+// It lets a harness attach clients to a Hub without a websocket, push the five
+// kinds of events the real Hub.Run loop selects on, and read the hub's
+// unexported bookkeeping (clients, state) between events.  Nothing here
+// re-implements hub logic: events travel through the hub's own channels and
+// are handled by Hub.Run itself.
+
+type VerifEventKind int
+
+const (
+	VerifRegister VerifEventKind = iota
+	VerifUnregister
+	VerifBroadcast
+	VerifClientUpdate
+	VerifSceneUpdate
+)
+
+type VerifEvent struct {
+	Kind   VerifEventKind
+	Client *Client   // register, unregister, client update
+	Update Message   // client update
+	Data   []byte    // broadcast
+	Time   time.Time // scene update
+}
+
+// VerifStart runs h.Run() in a new goroutine.  If the loop panics the panic
+// value is delivered on the returned channel (the loop is then gone).
+func (h *Hub) VerifStart() <-chan any {
+	died := make(chan any, 1)
+	go func() {
+		defer func() {
+			died <- recover()
+		}()
+		h.Run()
+	}()
+	return died
+}
+
+// VerifNewClient builds a hub-attached client the way ServeWs does, without a
+// connection and with a send buffer of the given capacity.
+func VerifNewClient(h *Hub, sendCap int) *Client {
+	return &Client{
+		hub:    h,
+		send:   make(chan Message, sendCap),
+		Config: DefaultClientConfig(),
+	}
+}
+
+// VerifSend is the channel writePump would receive from.
+func (c *Client) VerifSend() <-chan Message {
+	return c.send
+}
+
+// VerifPush offers one event to the loop on the channel of its kind.  It
+// returns true once the loop has received it, false if abort fired first.
+func (h *Hub) VerifPush(ev VerifEvent, abort <-chan struct{}) bool {
+	switch ev.Kind {
+	case VerifRegister:
+		select {
+		case h.register <- ev.Client:
+			return true
+		case <-abort:
+		}
+	case VerifUnregister:
+		select {
+		case h.unregister <- ev.Client:
+			return true
+		case <-abort:
+		}
+	case VerifBroadcast:
+		select {
+		case h.broadcast <- ev.Data:
+			return true
+		case <-abort:
+		}
+	case VerifClientUpdate:
+		select {
+		case h.clientUpdates <- clientUpdate{client: ev.Client, update: ev.Update}:
+			return true
+		case <-abort:
+		}
+	case VerifSceneUpdate:
+		select {
+		case h.sceneUpdate <- ev.Time:
+			return true
+		case <-abort:
+		}
+	}
+	return false
+}
+
+// VerifClients copies the hub's client table.  Call it only while the loop
+// is known to be between events (after a later push was received).
+func (h *Hub) VerifClients() map[*Client]string {
+	out := make(map[*Client]string, len(h.clients))
+	for c, id := range h.clients {
+		out[c] = id
+	}
+	return out
+}
+
+// VerifState deep-copies the hub's room state (same caveat as VerifClients).
+func (h *Hub) VerifState() RoomState {
+	out := RoomState{
+		ModelVersion: h.state.ModelVersion,
+		Players:      make(map[string]*Player, len(h.state.Players)),
+	}
+	if h.state.WebScene != nil {
+		ws := *h.state.WebScene
+		out.WebScene = &ws
+	}
+	for id, p := range h.state.Players {
+		if p == nil {
+			out.Players[id] = nil
+			continue
+		}
+		cp := Player{Name: p.Name}
+		if p.Representation != nil {
+			cp.Representation = append([]PlayerRepresentation{}, p.Representation...)
+		}
+		out.Players[id] = &cp
+	}
+	return out
+}
